@@ -690,6 +690,47 @@ def domain_of(cls):
     raise Unsupported("no has_domain check found for " + cls.__name__)
 
 
+_SKIP_METHODS = {"close", "format", "lock", "unlock", "join", "sniff", "wait_packet", "wait_for_message"}
+
+
+def public_methods(klass):
+    """names of the plain public methods defined in klass itself that can be called as a step of a
+    sequence: no decorators (properties), no callbacks, no generators, no predicates"""
+    _p, _s, cn = class_node(klass)
+    out = []
+    for m in cn.body:
+        if not isinstance(m, ast.FunctionDef) or m.decorator_list or m.name.startswith("_") or m.name.startswith("on_") \
+                or m.name.startswith("can_") or m.name.startswith("support_") or m.name.startswith("wait") \
+                or m.name in _SKIP_METHODS or m.name in out:
+            continue
+        if any(isinstance(x, (ast.Yield, ast.YieldFrom, ast.While)) for x in ast.walk(m)):
+            continue
+        out.append(m.name)
+    return out
+
+
+def state_access(fn):
+    """instance attributes (other than the memoisation caches of predicates) read in a condition /
+    written by a method: what makes an operation depend on the connector's history"""
+    reads, writes = set(), set()
+    for n in ast.walk(fn):
+        if isinstance(n, (ast.If, ast.IfExp, ast.Assert)):
+            for a in ast.walk(n.test):
+                if isinstance(a, ast.Attribute) and isinstance(a.value, ast.Name) and a.value.id == "self" \
+                        and isinstance(a.ctx, ast.Load) and not isinstance(getattr(a, "_parent_call", None), ast.Call):
+                    reads.add(a.attr)
+        if isinstance(n, ast.Attribute) and isinstance(n.value, ast.Name) and n.value.id == "self" and isinstance(n.ctx, ast.Store):
+            writes.add(n.attr)
+    # attributes that are only the callee of a call (self.can_x()) are not state
+    for n in ast.walk(fn):
+        if isinstance(n, ast.Call) and isinstance(n.func, ast.Attribute) and isinstance(n.func.value, ast.Name) \
+                and n.func.value.id == "self":
+            reads.discard(n.func.attr)
+    for d in ("device", "hub"):
+        reads.discard(d)
+    return sorted(reads), sorted(writes)
+
+
 def ident(s):
     return re.sub(r"[^A-Za-z0-9_]", "_", s)
 
@@ -750,6 +791,19 @@ def translate(repo=None, want_ops=()):
             item["transmitting_calls"] = sorted(set(tr.unsafe_seen))
             a = fn.args
             pos = a.args[1:]
+            # steps of operation sequences on this role connector: start/stop and the role's own
+            # argument-less public methods that consult a capability predicate
+            steps = [n for n in ("start", "stop") if hasattr(cls, n)]
+            try:
+                _p2, _s2, rcn = class_node(cls)
+                for m in rcn.body:
+                    if isinstance(m, ast.FunctionDef) and m.name in public_methods(cls) and m.name not in steps \
+                            and len(m.args.args) - len(m.args.defaults) == 1 \
+                            and any(Scope.pred_call(x) for x in ast.walk(m) if isinstance(x, ast.Call)):
+                        steps.append(m.name)
+            except Unsupported:
+                pass
+            item["seq_methods"] = steps
             item["opt_params"] = [x.arg for x in pos[len(pos) - len(a.defaults):]] + \
                 [x.arg for x, d in zip(a.kwonlyargs, a.kw_defaults) if d is not None]
         except Unsupported as e:
@@ -763,6 +817,7 @@ def translate(repo=None, want_ops=()):
         cls = getattr(mod, cname)
         dval, _ = domain_of(cls)
         path, src, cn = class_node(cls)
+        out.setdefault("prefix_methods", {})["%s.%s" % (dk, cname)] = public_methods(cls)
         seen = set()
         wanted = {w.split(".")[2] for w in want_ops if w.split(".")[:2] == [dk, cname]}
         for m in cn.body:
@@ -779,6 +834,7 @@ def translate(repo=None, want_ops=()):
             item = {"id": "%s.%s.%s" % (dk, cname, m.name), "coq_name": "op_%s_%s_%s" % (dk, cname, m.name),
                     "domain": dk, "class": cname, "module": modname, "method": m.name, "preds_called": preds,
                     "tie": src_tie(p, fn, repo)}
+            item["state_reads"], item["state_writes"] = state_access(fn)
             try:
                 sc = Scope(cls, dval)
                 tr = GuardTr(sc, False)
